@@ -96,6 +96,12 @@ def _work(job):
 
 def _child(job, conn):
     try:
+        import resource
+        lim = int(os.environ.get('PYVC_JOB_MEM_GB', '8')) << 30
+        resource.setrlimit(resource.RLIMIT_AS, (lim, lim))
+    except Exception:
+        pass
+    try:
         conn.send(_work(job))
     except Exception as ex:
         try:
@@ -134,13 +140,14 @@ def run_jobs(jobs, njobs, tier):
                 try:
                     results.append(pc.recv())
                 except EOFError:
-                    results.append((job[0], job[1], {'error': 'worker died', 'crash': True}))
+                    results.append((job[0], job[1], {'timeout': True, 'secs': time.time() - t0, 'why': 'worker died'}))
                 done = True
             elif not p.is_alive():
                 if pc.poll(0.2):
                     results.append(pc.recv())
                 else:
-                    results.append((job[0], job[1], {'error': 'worker exited with %s' % p.exitcode, 'crash': True}))
+                    # killed by the memory limit or by a solver abort: undecided, not a checker crash
+                    results.append((job[0], job[1], {'timeout': True, 'secs': time.time() - t0, 'why': 'worker exited with %s' % p.exitcode}))
                 done = True
             elif time.time() - t0 > JOB_TIMEOUT[tier][job[0]]:
                 p.kill()
